@@ -204,7 +204,7 @@ Proof.
   destruct (tau_star_rp_completable p G m (ug_input_predicates (et_user_guide t)) EG) as [D ED]. rewrite ED.
   destruct (et_simplify t); [|discriminate]. intros E. exfalso. revert E.
   apply simplify_status_no_panic.
-  apply (completion_missing_outputs_pi _ _ _ _ (rp_theory_pi m G (tau_star_pi p G Hp EG)) ED).
+  apply (completion_missing_outputs_pi _ _ _ _ _ (rp_theory_pi m G (tau_star_pi p G Hp EG)) ED).
 Qed.
 
 (* XPanic of the full model: the overflow class F11 of one of the programs, or a panic of the
